@@ -92,7 +92,7 @@ def clean_env(extra=None, path="/usr/bin:/bin"):
     return env
 
 
-def run_all(cmd, cwd=None, env=None, timeout=60, user=None, stdin_data=None, settle=20):
+def run_all(cmd, cwd=None, env=None, timeout=180, user=None, stdin_data=None, settle=60):
     """Runs cmd (env is the *complete* environment) in its own session and returns a Result once
     the process AND every descendant that inherited our marker pipe have exited (wild's forked
     worker performs deletions and shutdown work after the parent has reported success)."""
@@ -143,7 +143,7 @@ def run_all(cmd, cwd=None, env=None, timeout=60, user=None, stdin_data=None, set
     return res
 
 
-def wild(args, cwd, env_extra=None, timeout=60, user=None, exe=None):
+def wild(args, cwd, env_extra=None, timeout=180, user=None, exe=None):
     return run_all([exe or core.WILD, *args], cwd=cwd, env=clean_env(env_extra), timeout=timeout, user=user)
 
 
